@@ -161,14 +161,17 @@ static bool runCase(const Case &c, Ctx &ctx) {
         if (!sv.init) mayThrowOrNoop = true;
         occa::memory r = w.mem[s].cast(*dt.dt);
         w.mem[d] = r;
-        if (sv.init) { nv = sv; nv.dsz = dt.sz; } else { nv = View(); if (r.isInitialized()) return ctx.fail("cast of uninitialized handle is initialized"); }
+        // cast() is slice(0) in units of the *current* dtype followed by setDtype: trailing bytes that do not fill a whole
+        // element of the current dtype are not part of the new view (the statement does not say otherwise)
+        if (sv.init) { nv = sv; nv.len = (sv.len / sv.dsz) * sv.dsz; nv.dsz = dt.sz; } else { nv = View(); if (r.isInitialized()) return ctx.fail("cast of uninitialized handle is initialized"); }
         setView = true;
         ctx.cls("cast");
         break;
       }
       case CLONE: {
         const View sv = w.view[s];
-        if (!sv.init) mayThrowOrNoop = true;
+        // cloning nothing (uninitialized handle, or a zero-length view: malloc(0) yields an empty handle) may raise or give an empty handle
+        if (!sv.init || sv.len == 0) mayThrowOrNoop = true;
         occa::memory r = w.mem[s].clone();
         w.mem[d] = r;
         if (sv.init) {
